@@ -141,9 +141,9 @@ theorem subdivision_contained (F : Int × Int) (hF : IsFlip F) (d : Nat) (hd : d
 
 set_option linter.unusedSimpArgs false in
 /-- one flip state of `subdivision_complete` (the cut-line hypotheses already split into `<`/`>`) -/
-local macro "subdivision_complete_tac" : tactic => `(tactic| (
-  rcases lt_or_gt_of_ne ‹_ + _ ≠ _› with h1 | h1 <;> rcases lt_or_gt_of_ne ‹u ≠ _› with h2 | h2 <;>
-    rcases lt_or_gt_of_ne ‹v ≠ _› with h3 | h3 <;> split_ifs
+local macro "subdivision_complete_tac" h1:ident h2:ident h3:ident : tactic => `(tactic| (
+  rcases lt_or_gt_of_ne $h1 with $h1:ident | $h1:ident <;> rcases lt_or_gt_of_ne $h2 with $h2:ident | $h2:ident <;>
+    rcases lt_or_gt_of_ne $h3 with $h3:ident | $h3:ident <;> split_ifs
   all_goals
     refine ⟨by norm_num, ?_⟩
     simp only [childIJ_0_pp, childIJ_1_pp, childIJ_2_pp, childIJ_3_pp, childIJ_0_pm, childIJ_1_pm,
@@ -166,7 +166,7 @@ theorem subdivision_complete_pp (u v : K) (hin : InT (1, 1) (u * (1 / 2)) (v * (
   simp only [Int.cast_one, Int.cast_neg] at h1 h2 h3
   rewrite [inT_pp] at hin
   rewrite [ijq_pp]
-  subdivision_complete_tac
+  subdivision_complete_tac h1 h2 h3
 
 set_option linter.unusedSimpArgs false in
 theorem subdivision_complete_pm (u v : K) (hin : InT (1, -1) (u * (1 / 2)) (v * (1 / 2)))
@@ -179,7 +179,7 @@ theorem subdivision_complete_pm (u v : K) (hin : InT (1, -1) (u * (1 / 2)) (v * 
   simp only [Int.cast_one, Int.cast_neg] at h1 h2 h3
   rewrite [inT_pm] at hin
   rewrite [ijq_pm]
-  subdivision_complete_tac
+  subdivision_complete_tac h1 h2 h3
 
 set_option linter.unusedSimpArgs false in
 theorem subdivision_complete_mp (u v : K) (hin : InT (-1, 1) (u * (1 / 2)) (v * (1 / 2)))
@@ -192,7 +192,7 @@ theorem subdivision_complete_mp (u v : K) (hin : InT (-1, 1) (u * (1 / 2)) (v * 
   simp only [Int.cast_one, Int.cast_neg] at h1 h2 h3
   rewrite [inT_mp] at hin
   rewrite [ijq_mp]
-  subdivision_complete_tac
+  subdivision_complete_tac h1 h2 h3
 
 set_option linter.unusedSimpArgs false in
 theorem subdivision_complete_mm (u v : K) (hin : InT (-1, -1) (u * (1 / 2)) (v * (1 / 2)))
@@ -205,7 +205,7 @@ theorem subdivision_complete_mm (u v : K) (hin : InT (-1, -1) (u * (1 / 2)) (v *
   simp only [Int.cast_one, Int.cast_neg] at h1 h2 h3
   rewrite [inT_mm] at hin
   rewrite [ijq_mm]
-  subdivision_complete_tac
+  subdivision_complete_tac h1 h2 h3
 
 /-- **Completeness of the subdivision** (converse of `subdivision` + exhaustiveness): a point of the
 doubled triangle `2·T(F)` that is on none of the three cut lines `u + v = F.1`, `u = F.2`, `v = F.1`
